@@ -1419,6 +1419,12 @@ func (s *sim) execConc(op Op) {
 			s.classifyVote(b, pairs)
 			step := s.step
 			ps = append(ps, pending{cr: cr, pan: &pan, name: "HandleVoteProofs", fin: func() {
+				if res == tmconsensus.HandleVoteProofsFutureVerified {
+					if s.futureStored == nil {
+						s.futureStored = map[string]bool{}
+					}
+					s.futureStored[fmt.Sprintf("%d/%d", bb.H, bb.R)] = true
+				}
 				s.lastVoteRes = append(s.lastVoteRes, res)
 				s.sentVotes = append(s.sentVotes, sentVote{Step: step, Kind: bb.Kind, H: bb.H, R: bb.R, Authentic: pairs, Targets: len(bb.Proofs), Results: []tmconsensus.HandleVoteProofsResult{res}})
 			}})
